@@ -79,7 +79,8 @@ class C15(Prop):
             'context-manager exit) on 1-3 cassettes sharing one bucket with foreign objects; all 16 read_only x transient x '
             "prefix ('', a, ab, a/b) combinations enumerated first, then random ones (including two cassettes with the same "
             'prefix); for every save of a sequence the two variants of the sequence in which that save is interrupted after '
-            'its 1st / 2nd bucket mutation; ~12% of the sequences save a recording, delete it by closing a transient cassette on '
+            'its 1st / 2nd bucket mutation, the variant in which the store REFUSES its 2nd put (an error answer: the saving code\'s own '
+            'handlers run; also on re-saves of stored recordings) and the two in which it refuses the put of the full object; ~12% of the sequences save a recording, delete it by closing a transient cassette on '
             'its key prefix and save the very same recording again through the same cassette object; rarely (~3% of the sequences) a default-prefix cassette next to one with prefix '
             "'full' / 'metadata' (known finding K8); a case is non-trivial when it logged a mutation or refused a write; "
             'distinct = distinct canonical case')
